@@ -236,6 +236,14 @@ class ScriptedPeer(object):
                     self.cur['rcpts'].append((_addr(line), ok))
             elif word == b'DATA':
                 acc = [r for r, ok in self.cur['rcpts'] if ok] if self.cur and self.cur['mail_ok'] else []
+                if not acc and self.script.get('data354') and self.cur is not None:
+                    # a server that answers DATA with 354 although it refused every recipient (some do); whatever follows the
+                    # data is scripted as stage 'eod'
+                    self._send(b'354 go ahead (no valid recipients)\r\n')
+                    self._read_data()
+                    self._reply('eod', 'eod', '5.5.1 no valid recipients')
+                    self.need_reset = True
+                    continue
                 if not acc:
                     self._send(('503 5.5.1 no valid recipients%s\r\n' % self._tag()).encode('latin-1'))
                     self.need_reset = True
